@@ -757,6 +757,17 @@ fn make_wide(d: &mut Dec, ctx: &mut Ctx) -> Value {
         ops.push(format!("{} {} {}", a, op.text(), b));
         if op.is_cmp() {
             body.push_str(&format!("    let _ = string_println(bool_to_string({expr}));\n"));
+        } else if op == Op::Div && d.chance(70) {
+            // the quotient is never used: the division still has to happen (it may fail)
+            labels.push("form:discarded-quotient".into());
+            if d.bool() {
+                body.push_str(&format!("    let _ = {expr};\n"));
+            } else {
+                body.push_str(&format!("    let unused{i}: {t} = {expr};\n"));
+            }
+            if !matches!(r, R::DivZero) {
+                continue;
+            }
         } else {
             body.push_str(&format!("    let _ = string_println({t}_to_string({expr}));\n"));
         }
